@@ -20,7 +20,7 @@ META = {
     ),
     "anchors": ["abelian_core.calc_reshape_args", "abelian_core.AbelianArray.reshape"],
     "floors": {
-        "quick": {"evaluations": 60000, "distinct_nontrivial": 400, "tables": {"array/reshape": 3000, "array/roundtrip": 1500, "routine/forward": 40000, "routine/backward": 30000, "routine/with-fused-axes": 50000, "routine/long-forward": 50000, "routine/long-plans-with>=3-groups": 5000, "routine/plans-that-unfuse-and-expand": 2000, "array/expand-or-unfuse-target": 1500, "feature/nonzero-charge-singleton": 200, "feature/fused-axis": 200, "kind/fermionic": 500}},
+        "quick": {"evaluations": 60000, "distinct_nontrivial": 400, "tables": {"array/reshape": 3000, "array/roundtrip": 1500, "routine/forward": 40000, "routine/backward": 30000, "routine/with-fused-axes": 50000, "routine/long-forward": 50000, "routine/long-plans-with>=3-groups": 5000, "routine/plans-that-unfuse-and-expand": 2000, "array/expand-or-unfuse-target": 1500, "array/chain-roundtrip-depth-3": 500, "feature/nonzero-charge-singleton": 200, "feature/fused-axis": 200, "kind/fermionic": 500}},
         "thorough": {"evaluations": 300000, "distinct_nontrivial": 8000, "tables": {"array/reshape": 100000, "routine/forward": 40000}},
     },
     "exhaustive": {"quick": False, "thorough": False},
@@ -499,6 +499,69 @@ def array_case(ctx, rng):
             ctx.sample({"x": describe(x), "shape": list(shape), "target": list(tgt), "result_shape": [ix.size_total for ix in y.indices]}, limit=3)
 
 
+def chain_case(ctx, rng):
+    """Sibling arrays (same shape, same tables one level up, different innermost indices) go
+    one after another through the same chain of merges, several levels deep, and stepwise
+    back: every step back must restore the previous array exactly, whatever went before."""
+    from symv import c15ops
+
+    sr = ctx.sr
+    ac = __import__("symmray.abelian_core", fromlist=["x"])
+    fam = c15ops.nested_chain_family(sr, rng, fuse=False, values="unique")
+    if len(fam) < 2:
+        return
+    rng.shuffle(fam)
+    nd = fam[0][1].ndim
+    # one merge plan for all siblings: positions of successive adjacent merges
+    plan = []
+    r = nd
+    while r > rng.choice([1, 1, 2]):
+        plan.append(0 if rng.random() < 0.6 else rng.randrange(r - 1))
+        r -= 1
+    ctx.count("array", "chain-families")
+    for tag, x in fam[: rng.randint(2, len(fam))]:
+        ys = [x]
+        wit = {"sibling": tag, "x": describe(x, True), "merge_positions": plan, "family": [t for t, _ in fam]}
+        ok = True
+        for k in plan:
+            y = ys[-1]
+            shp = tuple(ix.size_total for ix in y.indices)
+            tgt = shp[:k] + (shp[k] * shp[k + 1],) + shp[k + 2 :]
+            o = ctx.call(lambda: y.reshape(tgt))
+            ctx.evaluated()
+            ctx.count("array", "reshape")
+            pre_ids = {id(ix.subinfo) for ix in y.indices if ix.subinfo is not None}
+            amb = unfuses_preexisting(ac, y, tgt, pre_ids)
+            if not o.ok:
+                ctx.violation(AMBIG if amb else f"reshape-raises-{o.excname}", f"chain step {shp}->{tgt}: {o.exc!r}", wit)
+                ok = False
+                break
+            z = o.value
+            zs = tuple(ix.size_total for ix in z.indices)
+            # (a merged axis may come out smaller than the product: sectors excluded by charge)
+            if len(zs) != len(tgt) or any(a > b for a, b in zip(zs, tgt)) or sumsq(z) != sumsq(y):
+                ctx.violation(AMBIG if amb else "reshape-chain-step", f"chain step {shp}->{tgt}: result shape {tuple(ix.size_total for ix in z.indices)}, sum of squares {sumsq(z)} vs {sumsq(y)}", wit)
+                ok = False
+                break
+            o2 = ctx.call(lambda: z.reshape(shp))
+            ctx.evaluated()
+            ctx.count("array", "roundtrip")
+            ctx.count("array", f"chain-roundtrip-depth-{len(ys)}")
+            amb_back = amb or unfuses_preexisting(ac, z, shp, pre_ids)
+            if not o2.ok:
+                ctx.violation(AMBIG if amb_back else f"reshape-back-raises-{o2.excname}", f"chain {shp}->{tgt}->{shp} (depth {len(ys)}): {o2.exc!r}", wit)
+                ok = False
+                break
+            m = same_array(y, o2.value)
+            if m:
+                ctx.violation(AMBIG if amb_back else "reshape-roundtrip", f"chain {shp}->{tgt}->{shp} at depth {len(ys)} after sibling arrays went the same way: {m}", wit)
+                ok = False
+                break
+            ys.append(z)
+        if ok and len(ys) >= 3:
+            ctx.nontrivial(("chain", tag, tuple(plan), struct_sig(x)))
+
+
 def run(ctx):
     import random
 
@@ -518,6 +581,8 @@ def run(ctx):
         ctx.run_case(routine_case, ctx, ac, shape, k)
     else:
         ctx.count("enum_complete", "routine-box")
+    for _, rng in ctx.cases("chains", ctx.budget(4000, 80000)):
+        ctx.run_case(chain_case, ctx, rng)
     for _, rng in ctx.cases("routine-arbitrary", ctx.budget(100000, 1500000)):
         ctx.run_case(routine_unreachable, ctx, ac, rng)
     for _, rng in ctx.cases("routine-fused", ctx.budget(150000, 2000000)):
